@@ -3,7 +3,7 @@
    1 + 1 <> 0.  [jac_on]/[aff_on]: the (affine image of the) point satisfies
    y^2 = x^3 + a x + b.  [te_valid]: Z <> 0 and T Z = X Y.  [te_dens_ok]: the two
    denominators 1 +- d x1 x2 y1 y2 of the Edwards law are non-zero. *)
-From V Require Import Base.Field C03.CurveExec C03.SWProofs C03.TEProofs C03.FieldHyp.
+From V Require Import Base.Field C03.CurveExec C03.SWProofs C03.TEProofs C03.TEComplete C03.FieldHyp.
 
 (* ---- short Weierstrass, Jacobian coordinates ---- *)
 Theorem C03_sw_add : forall T (F : Fops T) (a b : T), good_field F ->
@@ -93,6 +93,13 @@ Proof. exact (fun T F G => te_neg_correct F (gf_th F G) (gf_eqb F G)). Qed.
 Theorem C03_te_law_closed : forall T (F : Fops T) (a d : T), good_field F ->
   forall A B, te_aff_on F a d A -> te_aff_on F a d B -> te_dens_ok F d A B -> te_aff_on F a d (aff_add_te F a d A B).
 Proof. exact (fun T F a d G => aff_add_te_on F a d (gf_th F G)). Qed.
+(* Bernstein-Lange completeness: a a square, d a non-square => the denominators never vanish on
+   curve points, so C03_te_add / C03_te_madd / C03_te_double apply to ALL pairs of curve points
+   (satisfiable: e.g. a = 12 = 5^2, d = 6 over F_13, toy curve te13_m1_complete) *)
+Theorem C03_te_complete : forall T (F : Fops T) (a d s : T), good_field F ->
+  a = fmul F s s -> (forall w, fmul F w w <> d) ->
+  forall A B, te_aff_on F a d A -> te_aff_on F a d B -> te_dens_ok F d A B.
+Proof. exact (fun T F a d s G => te_complete F a d (gf_th F G) (gf_eqb F G) (gf_two F G) s). Qed.
 Theorem C03_te_to_affine : forall T (F : Fops T), good_field F ->
   forall x y t z, z <> f0 F -> te_to_affine F (x, y, t, z) = (fdiv F x z, fdiv F y z).
 Proof. exact (fun T F G => te_to_affine_spec F (gf_th F G) (gf_eqb F G)). Qed.
